@@ -123,6 +123,37 @@ fn originals_for(spec: Specimen, other: &Specimen, deg: usize) -> Originals {
     Originals { spec, pp, bytes, other: other_b }
 }
 
+/// Structural boundaries of a valid encoding (offsets where one component
+/// ends and the next begins).
+fn boundaries(d: Dec, v: &[u8]) -> Vec<usize> {
+    let be = |o: usize| u64::from_be_bytes(v[o..o + 8].try_into().unwrap()) as usize;
+    let mut b = vec![0usize, v.len()];
+    match d {
+        Dec::Prover => {
+            let (l, pk, ck) = (be(0), be(8), be(16));
+            b.extend([48, 48 + l, 48 + l + pk, 48 + l + pk + 8, 48 + l + pk + ck, 48 + l + pk + ck + 8]);
+        }
+        Dec::Verifier => {
+            let l = be(0);
+            b.extend([48, 48 + l, 48 + l + 8, 48 + l + 8 + 15 * 48, 48 + l + 968, 48 + l + 968 + 48, 48 + l + 968 + 144, 48 + l + 968 + 240]);
+        }
+        Dec::Proof => b.extend([48, 528, 528 + 32, 1008 - 32]),
+        Dec::Params => b.extend([48, 144, 240, 240 + 48, v.len() - 48]),
+        Dec::CommitKeyRaw => b.extend([8, 8 + 97, v.len() - 97]),
+        Dec::CommitKeyVar => b.extend([48, v.len() - 48]),
+        Dec::OpeningKey => b.extend([48, 144]),
+        Dec::ProverKey => {
+            let len = u64::from_le_bytes(v[16..24].try_into().unwrap()) as usize;
+            b.extend([8, 16, 24, 24 + 32 * len, 24 + 32 * len + 172]);
+        }
+        Dec::VerifierKey => b.extend([8, 8 + 48, 8 + 15 * 48]),
+        Dec::Evaluations => b.extend([8, 12, 172, 172 + 32]),
+        Dec::Polynomial => b.extend([32, v.len().saturating_sub(32)]),
+    }
+    b.retain(|x| *x <= v.len());
+    b
+}
+
 /// Structure-aware mutation of a valid encoding for decoder `d`.
 fn structured(d: Dec, valid: &[u8], rng: &mut impl RngCore) -> Option<(String, Vec<u8>)> {
     let mut v = valid.to_vec();
@@ -618,6 +649,9 @@ fn usability(o: &Originals, val: &Decoded) -> Result<(), String> {
             })
         }
         Decoded::Params(pp) => guard(|| {
+            let _ = pp.max_degree();
+            let _ = dv::pp_trim(pp, 1);
+            let _ = pp.to_raw_var_bytes();
             if let Ok(c) = common::compile(pp, b"c17", &o.spec.prog) {
                 let mut rng = crate::mon::rng::fixed_rng(8);
                 let r = common::prove(&c.prover, &o.spec.prog, &o.spec.inputs, &[], &mut rng, PlonkVersion::V3);
@@ -627,8 +661,11 @@ fn usability(o: &Originals, val: &Decoded) -> Result<(), String> {
             }
         }),
         Decoded::CommitKey(ck) => guard(|| {
+            let _ = dv::commit_key_max_degree(ck);
             let _ = dv::commit(ck, &[BlsScalar::one(), BlsScalar::from(2u64)]);
-            let _ = dv::commit_key_truncate(ck, 1);
+            // trimming as the compiler does it: degree = n + 6 with n >= 8
+            let _ = dv::commit_key_truncate(ck, 14);
+            let _ = dv::commit_key_truncate(ck, dv::commit_key_max_degree(ck).max(2));
         }),
         Decoded::OpeningKey(ok) => guard(|| {
             let g = G1Affine::generator();
@@ -705,7 +742,23 @@ pub fn run(tier: Tier, seed: u64) -> i32 {
         let valid = &o.bytes[di].1;
         let other = &o.other[di].1;
         let mut rng = case_rng(seed, "C17.mut", ci);
-        let (class, bytes) = if rng.next_u32() % 5 < 3 {
+        let (class, bytes) = if rng.next_u32() % 8 == 0 {
+            // truncate (or cut and pad) exactly at a structural boundary
+            let bs = boundaries(d, valid);
+            let at = bs[rng.next_u32() as usize % bs.len()];
+            let at = match rng.next_u32() % 4 {
+                0 => at.saturating_sub(1),
+                1 => (at + 1).min(valid.len()),
+                _ => at,
+            };
+            let mut b = valid[..at].to_vec();
+            if rng.next_u32() % 4 == 0 {
+                b.extend(std::iter::repeat(0u8).take(valid.len() - at));
+                ("structured:zero-padded-from-boundary".to_string(), b)
+            } else {
+                ("structured:truncate-at-boundary".to_string(), b)
+            }
+        } else if rng.next_u32() % 5 < 3 {
             match structured(d, valid, &mut rng) {
                 Some((c, b)) => (format!("structured:{c}"), b),
                 None => {
